@@ -331,7 +331,8 @@ class Report:
             path = os.path.join(rdir, "%s-%s-%d.replay" % (self.prop, self.tier, self.seed))
             with open(path, "w") as f:
                 f.write("# replay for %s (tier=%s seed=%d); %d violation(s)\n" % (self.prop, self.tier, self.seed, len(fresh)))
-                for v in fresh[:50]:
+                # concrete failing inputs first, then what only stopped checking
+                for v in sorted(fresh, key=lambda v: not v["failing_input"])[:50]:
                     f.write("## kind=%s failing_input=%s\n" % (v["kind"], v["failing_input"]))
                     f.write("# " + str(v["detail"]).replace("\n", "\n# ") + "\n")
                     for l in v["replay"] or []:
